@@ -99,7 +99,7 @@ func c06Check(cc *run.Case, ns namedStrat, class string, n int) {
 
 func c06(ctx *run.Ctx) {
 	base := baseStrats(ctx, ctx.Pick(8, 60))
-	classes := []string{gen.Walk, gen.Walk2, gen.Dyadic, gen.Ties}
+	classes := []string{gen.Walk, gen.Walk2, gen.Dyadic, gen.Ties, gen.Degen}
 	if !ctx.Quick() {
 		classes = gen.OHLCVClasses
 	}
